@@ -13,21 +13,21 @@ def jobs(tier):
     js = []
     if tier == "quick":
         grid = [("c03.ub", 0, 2, 2, 4), ("c03.ub", 1, 1, 1, 1), ("c03.bb", 3, 2, 2, 4), ("c03.ub", 3, 1, 1, 2),
-                ("c03.bb", 1, 4, 4, 8), ("c03.ub", 2, 2, 1, 2)]
+                ("c03.bb", 1, 4, 4, 8), ("c03.ub", 2, 2, 1, 2), ("c03.ub", 6, 2, 2, 4), ("c03.ub", 7, 4, 4, 4)]
         for scn, shape, tbuf, soft, hard in grid:
             js.append({"scenario": scn, "cfg": {"shape": shape, "tbuf": tbuf, "soft": soft, "hard": hard}, "bound": 2, "deadline": 100})
     else:
         for scn in ("c03.ub", "c03.bb"):
-            for shape in (0, 1, 2, 3, 4, 5):
+            for shape in (0, 1, 2, 3, 4, 5, 6, 7, 8):
                 for tbuf, soft, hard in ((1, 1, 1), (1, 1, 2), (2, 2, 4), (4, 4, 8), (1, 2, 8), (4, 1, 1)):
                     js.append({"scenario": scn, "cfg": {"shape": shape, "tbuf": tbuf, "soft": soft, "hard": hard},
-                               "bound": 3 if shape in (0, 1, 3) else 2, "deadline": 600})
+                               "bound": 3 if shape in (0, 1, 3, 6) else 2, "deadline": 600})
     return js
 
 
 def run(ctx):
-    ctx.rule = ("all schedules up to the preemption bound of 2-3 frontend threads x 1-3 log calls (small / near-capacity "
-                "statements, two loggers sharing a sink, thread exit at the end of every script) against the real backend "
+    ctx.rule = ("all schedules up to the preemption bound of 2-3 frontend threads x 1-3 operations (small / near-capacity "
+                "statements, flush_log() of another thread, two loggers sharing a sink, thread exit at the end of every script) against the real backend "
                 "preemptible at its four yield hooks and poll boundaries; queue type x transit-buffer capacity x soft/hard "
                 "limit grid; one forked process per schedule; distinct = distinct observable outcomes (sink record sequences)")
     ctx.set_deadline(170 if ctx.tier == "quick" else 1800)
